@@ -125,11 +125,18 @@ func gen(seed uint64, tier string) Scenario {
 		sc.Hostile[i].DeafAt = int((x >> 16) % uint64(len(sc.Hostile[i].Msgs)))
 		if (x>>24)%2 == 0 {
 			// the conversation most likely to have a writer running: an interleaved play session
+			// it plays, stops reading, and once the server's writer is blocked on the full window
+			// (before WriteTimeout = ReadTimeout >= 2 s has passed) sends one more request
 			sc.Hostile[i].Msgs = nil
-			for k, t := range playConv {
-				sc.Hostile[i].Msgs = append(sc.Hostile[i].Msgs, Msg{Tmpl: t, Read: k < 4, GapUS: 20000})
+			for _, t := range []string{"options", "describe", "setup-tcp", "play"} {
+				sc.Hostile[i].Msgs = append(sc.Hostile[i].Msgs, Msg{Tmpl: t, Read: true, GapUS: 20000})
 			}
-			sc.Hostile[i].DeafAt = 3 + int((x>>32)%3)
+			sc.Hostile[i].DeafAt = 3
+			late := []string{"pause", "pause", "teardown", "getparam", "play", "setup-tcp"}[(x>>32)%6]
+			sc.Hostile[i].Msgs = append(sc.Hostile[i].Msgs, Msg{Tmpl: late, GapUS: 600000 + int((x>>40)%1000000)})
+			if (x>>52)%2 == 0 {
+				sc.Hostile[i].Msgs = append(sc.Hostile[i].Msgs, Msg{Tmpl: "teardown", GapUS: 20000})
+			}
 		}
 		deaf = true
 	}
@@ -140,9 +147,23 @@ func gen(seed uint64, tier string) Scenario {
 	n.ChunkMaxLen = r.Pick(64, 512, 4096)
 	if deaf {
 		n.Window = []int{2048, 8192}[core.HS(seed, "c11.window", "", 0)%2]
+		// larger packets fill the window quickly: keep 1-byte segments for small writes only
+		if n.ChunkMode == 2 {
+			n.ChunkMode = 3
+		}
+		n.ChunkMaxLen = 64
 	}
 	sc.Net = n
 	return sc
+}
+
+// payloadLen: the stream's packets are tiny, except in runs with a bounded window, where they
+// must fill it within a fraction of a second.
+func payloadLen(sc *Scenario) int {
+	if sc.Net.Window > 0 {
+		return 200
+	}
+	return 8
 }
 
 func mkDesc() *description.Session {
@@ -330,7 +351,7 @@ func run(t *testing.T, sc Scenario) *core.Result {
 					return
 				default:
 				}
-				p := make([]byte, 8)
+				p := make([]byte, payloadLen(&sc))
 				binary.BigEndian.PutUint32(p[0:], 0xC0110000)
 				binary.BigEndian.PutUint32(p[4:], uint32(c))
 				stream.WritePacketRTP(desc.Medias[0], &rtp.Packet{Header: rtp.Header{Version: 2, PayloadType: 96, SequenceNumber: uint16(c), Timestamp: uint32(c * 3000)}, Payload: p}) //nolint:errcheck
@@ -370,7 +391,7 @@ func run(t *testing.T, sc Scenario) *core.Result {
 				return err
 			}
 			c.OnPacketRTPAny(func(_ *description.Media, _ format.Format, pkt *rtp.Packet) {
-				if len(pkt.Payload) == 8 && binary.BigEndian.Uint32(pkt.Payload) == 0xC0110000 {
+				if len(pkt.Payload) == payloadLen(&sc) && binary.BigEndian.Uint32(pkt.Payload) == 0xC0110000 {
 					onPkt(int(binary.BigEndian.Uint32(pkt.Payload[4:])))
 				} else {
 					onPkt(-1)
